@@ -5,6 +5,8 @@ package subj
 
 import (
 	"fmt"
+	"hash/fnv"
+	"io"
 	"sort"
 	"strings"
 
@@ -45,10 +47,15 @@ type PTok struct {
 type Val struct {
 	Kind  string  `json:"k"`             // nil | tok | node | err | other
 	Tok   int     `json:"tok,omitempty"` // index of the token in the scanner's hand-out order (-2: unknown object)
+	Lit   string  `json:"lit,omitempty"` // tok: the token's literal as it is when the parse has ended
 	Tag   string  `json:"tag,omitempty"`
 	Args  []Val   `json:"args,omitempty"`
 	Err   *ErrVal `json:"err,omitempty"`
 	Other string  `json:"other,omitempty"`
+	// Dg: structural fingerprint computed bottom-up when the value is built
+	// (0: not computed). Lets values nested thousands of levels deep be compared
+	// in constant time.
+	Dg uint64 `json:"-"`
 }
 
 type ErrVal struct {
@@ -68,16 +75,20 @@ type CallVal struct {
 }
 
 type ParseObs struct {
-	Panic        string    `json:"panic,omitempty"`
-	Guard        bool      `json:"guard,omitempty"` // step guard tripped (loop)
-	ErrNil       bool      `json:"err_nil"`
-	Err          *ErrVal   `json:"err,omitempty"`
-	ErrOther     string    `json:"err_other,omitempty"`
-	ErrString    string    `json:"err_string,omitempty"`
-	Result       Val       `json:"result"`
-	Log          []CallVal `json:"log"`
-	ScanCalls    int       `json:"scan_calls"`
-	LogLenAtScan []int     `json:"log_len_at_scan"`
+	Panic     string    `json:"panic,omitempty"`
+	Guard     bool      `json:"guard,omitempty"` // step guard tripped (loop)
+	ErrNil    bool      `json:"err_nil"`
+	Err       *ErrVal   `json:"err,omitempty"`
+	ErrOther  string    `json:"err_other,omitempty"`
+	ErrString string    `json:"err_string,omitempty"`
+	Result    Val       `json:"result"`
+	Log       []CallVal `json:"log"`
+	ScanCalls int       `json:"scan_calls"`
+	// TokenModified: index of the first token object whose literal no longer
+	// is what the scanner handed out (-1: none) when the parse (and the
+	// rendering of its error) has ended
+	TokenModified int   `json:"token_modified"`
+	LogLenAtScan  []int `json:"log_len_at_scan"`
 }
 
 // Session wraps one generated Parser object; successive Parse calls reuse it.
@@ -196,6 +207,8 @@ func (v Val) DeepString() string {
 			a = append(a, x.DeepString())
 		}
 		return v.Tag + "(" + strings.Join(a, ",") + ")"
+	case "tok":
+		return fmt.Sprintf("tok#%d%q", v.Tok, v.Lit)
 	case "err":
 		var a []string
 		for _, x := range v.Err.Symbols {
@@ -219,21 +232,91 @@ func neutral(x any, conv func(any) (Val, bool), depth int) Val {
 		return Val{Kind: "other", Other: "<cyclic or absurdly deep attribute value>"}
 	}
 	if x == nil {
-		return Val{Kind: "nil"}
+		return Val{Kind: "nil"}.Sealed()
 	}
 	if v, ok := conv(x); ok {
+		if v.Dg == 0 {
+			v = v.Sealed()
+		}
 		return v
 	}
 	switch n := x.(type) {
 	case *act.Node:
 		if n == nil {
-			return Val{Kind: "nil"}
+			return Val{Kind: "nil"}.Sealed()
 		}
 		v := Val{Kind: "node", Tag: n.Tag}
 		for _, a := range n.Args {
 			v.Args = append(v.Args, neutral(a, conv, depth+1))
 		}
-		return v
+		return v.Sealed()
 	}
-	return Val{Kind: "other", Other: fmt.Sprintf("%T:%v", x, x)}
+	return Val{Kind: "other", Other: fmt.Sprintf("%T:%v", x, x)}.Sealed()
+}
+
+// Digest is a structural fingerprint of the value including everything
+// DeepString shows. Values built by Neutral carry it precomputed.
+func (v Val) Digest() string {
+	if v.Dg == 0 {
+		v = v.Sealed()
+	}
+	return fmt.Sprintf("%016x", v.Dg)
+}
+
+// Sealed returns v with Dg computed from its own fields and the Dg of its
+// children (which are sealed first if they are not yet).
+func (v Val) Sealed() Val {
+	h := fnv.New64a()
+	io.WriteString(h, v.Kind)
+	h.Write([]byte{0})
+	child := func(a *Val) {
+		if a.Dg == 0 {
+			*a = a.Sealed()
+		}
+		fmt.Fprintf(h, "%016x", a.Dg)
+	}
+	switch v.Kind {
+	case "tok":
+		fmt.Fprintf(h, "%d\x00%s\x00", v.Tok, v.Lit)
+	case "node":
+		io.WriteString(h, v.Tag)
+		fmt.Fprintf(h, "\x00%d\x00", len(v.Args))
+		for i := range v.Args {
+			child(&v.Args[i])
+		}
+	case "err":
+		fmt.Fprintf(h, "%d\x00%d\x00%s\x00%v\x00%q\x00%d\x00", v.Err.ErrTok, v.Err.ErrTokType, v.Err.ErrTokLit, v.Err.HasErr, v.Err.Expected, len(v.Err.Symbols))
+		for i := range v.Err.Symbols {
+			child(&v.Err.Symbols[i])
+		}
+	case "other":
+		io.WriteString(h, v.Other)
+	}
+	v.Dg = h.Sum64() | 1
+	return v
+}
+
+// Short renders the value like DeepString but cuts nesting below depth levels
+// (for messages: the full structure is in the replay file).
+func (v Val) Short(depth int) string {
+	if depth <= 0 {
+		return "…"
+	}
+	switch v.Kind {
+	case "node":
+		var a []string
+		for _, x := range v.Args {
+			a = append(a, x.Short(depth-1))
+		}
+		return v.Tag + "(" + strings.Join(a, ",") + ")"
+	case "tok":
+		return fmt.Sprintf("tok#%d%q", v.Tok, v.Lit)
+	case "err":
+		var a []string
+		for _, x := range v.Err.Symbols {
+			a = append(a, x.Short(depth-1))
+		}
+		return fmt.Sprintf("err{tok#%d type%d %q expected=%q syms[%s]}", v.Err.ErrTok, v.Err.ErrTokType, v.Err.ErrTokLit, v.Err.Expected, strings.Join(a, ","))
+	}
+	return v.String()
 }
